@@ -28,7 +28,7 @@
  *   s: "v":OPT "d":OPT "st":subtype "pv":parsed value (int; float in 1/1000; plain 0)
  *   p: "h":OPT "s":OPT "dh":OPT "ds":OPT        OPT = [] for NULL, [[bytes]] for a string
  *   l: "v":[[bytes]..] "d":[[bytes]..]
- *   o: "c":[NODE..]
+ *   o: "c":[NODE..]   (below 100 nested objects: "c":[],"T":1)
  * Hooks: every node registered here, and every node found without a hook after a successful
  * load, gets a hook that appends (name, kind) to a log which is cleared at each "begin".
  */
@@ -120,9 +120,14 @@ static void p_sv(const struct string_vector *sv)
 
 static const char kind_ch[] = "splo";
 
-static void p_children(struct conf_node_object *obj);
+/* The JSON reader of TLC accepts at most 255 nested arrays/objects: below MAX_DUMP_DEPTH objects the
+ * children are not printed and the node is marked "T":1 (never reached by the unchanged code on the
+ * inputs used: deeper files fail to load, and a failed load leaves no trace in the live tree). */
+#define MAX_DUMP_DEPTH 100
 
-static void p_node(struct conf_node_base *base)
+static void p_children(struct conf_node_object *obj, int depth);
+
+static void p_node(struct conf_node_base *base, int depth)
 {
     fputs("{\"n\":", out);
     p_str(base->name ? base->name : "");
@@ -167,14 +172,18 @@ static void p_node(struct conf_node_base *base)
         break;
     }
     case CONF_OBJECT:
+        if (depth >= MAX_DUMP_DEPTH) {
+            fputs(",\"c\":[],\"T\":1", out);
+            break;
+        }
         fputs(",\"c\":", out);
-        p_children(ENCLOSING_STRUCT(base, struct conf_node_object, base));
+        p_children(ENCLOSING_STRUCT(base, struct conf_node_object, base), depth + 1);
         break;
     }
     fputc('}', out);
 }
 
-static void p_children(struct conf_node_object *obj)
+static void p_children(struct conf_node_object *obj, int depth)
 {
     struct set_node *it;
     int first = 1;
@@ -183,7 +192,7 @@ static void p_children(struct conf_node_object *obj)
         if (!first)
             fputc(',', out);
         first = 0;
-        p_node(set_node_data(it));
+        p_node(set_node_data(it), depth);
     }
     fputc(']', out);
 }
@@ -192,7 +201,7 @@ static void p_dump(void)
 {
     struct conf_node_object *root = conf_get_root();
     fprintf(out, "{\"P\":%u,\"c\":", root->base.present);
-    p_children(root);
+    p_children(root, 0);
     fputc('}', out);
 }
 
